@@ -880,6 +880,33 @@ class Interp:
         base = strip_generics(ty)
         if self.drop_hook is not None and self.drop_hook(self, fr, place, base):
             return
+        if "Guard" in base or base.startswith("{"):
+            # values of modelled external types with a drop effect (async mutex guards)
+            try:
+                v = self.eval_place_ref(fr, place).load()
+            except Exception:
+                v = None
+            from . import models as _models_mod
+            md = _models_mod.MODEL_DROPS
+            if isinstance(v, Agg) and v.ty in md:
+                md[v.ty](self, v)
+                return
+        if ty.startswith("{async fn body of tokio::"):
+            return
+        if ty.startswith("{async fn body of "):
+            # a suspended (or never polled) future of a crate `async fn`: run its drop shim from the MIR dump
+            m = re.match(r"^\{async fn body of (.*?)\(\)\}$", ty)
+            fn = self.resolve_fn(strip_generics(m.group(1)), m.group(1)) if m else None
+            shim = (fn.split("@")[0] + "::{closure#0}::{coroutine_drop}") if fn else None
+            if shim and shim in self.prog.fn_index:
+                try:
+                    r = self.eval_place_ref(fr, place)
+                except Exception:
+                    return
+                self.drop_coroutine(r, shim)
+            else:
+                raise Unsupported("no drop shim for " + ty[:120])
+            return
         if "::" in base and not base.startswith(("std::", "core::", "alloc::", "bytes::", "&")):
             fn = self.prog.resolve_method("", base, "drop", "Drop")
             if fn is not None:
@@ -889,6 +916,16 @@ class Interp:
                     return
                 if r.load() is not None:
                     self.run_body(self.prog.body(fn), [r])
+
+    def drop_coroutine(self, coro_ref, shim):
+        """run the compiler-generated drop shim of a crate coroutine (what happens when its future is dropped)"""
+        c = coro_ref
+        while isinstance(c, Ref) and not (isinstance(c.load(), Agg) and str(c.load().ty).startswith("{coroutine")):
+            c = c.load()
+        if not isinstance(c, Ref):
+            return
+        self.dropped_coroutines = getattr(self, "dropped_coroutines", 0) + 1
+        self.run_body(self.prog.body(shim), [c])
 
     # ------------------------------------------------------------------ calls
     def resolve_fn(self, plain: str, full: str):
